@@ -14,6 +14,8 @@ RULE = ("history on ONE database instance: a random permutation of queries mixin
         "(value, unit) of its reported constant and evaluating the expression tree in the reference model (Fraction + SI normaliser) "
         "reproduces the tool's result. non-trivial = distinct query with >=1 fact phrase and >=1 operator")
 
+DISTURBERS = ["OR", "NOT", "AND", "earth NOT", "NOT earth", "OR earth", "earth OR", "earth AND", "AND earth", "sun OR moon mass", "mass NOT NOT",
+              "zzqqxx", "qqq jjj", "population zzzz", "mass of", "of", "x", "earth OR OR moon", "NOT", "(OR)", "(earth NOT) * 2", "1 / 0", "1 m + 1 s", ")", "{a b}"]
 TARGETS = ["m/s^2", "km/s^2", "N/kg", "m/s/s", "ft/s^2", "m/s", "km/h", "N", "J", "W", "kg", "g", "m", "km", "s", "yr", "K", "m^2", "m^3", "l", "Pa", "Hz",
            "kg/m^3", "J/kg", "W/m^2", "m^3/kg*s^2", "N*m^2/kg^2", "C", "V", "mol", "1/s", "kg*m/s^2"]
 
@@ -176,6 +178,17 @@ def shard(p):
         # the evaluator or the database remembers from one evaluation to the next is asked the most confusable question next
         by_text = sorted(range(len(queries)), key=lambda i: (queries[i][0].lower(), queries[i][0]))
         schedule += [(qi, j % 2 == 0) for j, qi in enumerate(by_text)] + [(qi, j % 2 == 1) for j, qi in enumerate(reversed(by_text))]
+        # sandwiches A, E, A: the same query immediately before and after a *disturber* - a phrase the database does not know, or
+        # one the search library refuses outright (a dangling upper-case OR / NOT), or an empty-handed cast. A lookup memo that is
+        # left half-updated by a failing lookup answers the second A differently (seed C18-d)
+        dist0 = len(queries)
+        for e in DISTURBERS:
+            queries.append((e, None))
+        for di in range(dist0, len(queries)):
+            for _ in range(6):
+                qi = rng.randrange(n_generated) if n_generated else 0
+                f1, f2, f3 = (rng.random() < 0.5 for _ in range(3))
+                schedule += [(qi, f1), (di, f2), (qi, f3)]
         reqs = [{"op": "query", "q": queries[qi][0], "describe": flag} for qi, flag in schedule]
         reps = []
         for i in range(0, len(reqs), 2000):
@@ -187,7 +200,8 @@ def shard(p):
             acc.count("with_descriptions" if flag else "without_descriptions")
             if tree is not None and tree[0] != "fact":
                 acc.nontriv(text)
-            case = {"query": text, "describe": flag, "position_in_history": pos, "build": p["kind"]}
+            case = {"query": text, "describe": flag, "position_in_history": pos, "build": p["kind"],
+                    "preceded_by": [[queries[q_][0], f_] for q_, f_ in schedule[max(0, pos - 3):pos]]}
             if "panic" in rep:
                 acc.violate("c18:panic", "%r panicked: %s" % (text, rep["panic"]), dict(case, observed=rep["panic"]))
                 continue
@@ -267,6 +281,8 @@ def replay(path):
     v = json.load(open(path))
     c = v["case"]
     with Driver(build.build(c.get("build", "dbg"))["vdriver"]) as d:
+        for q0, f0 in c.get("preceded_by", []):
+            d.call({"op": "query", "q": q0, "describe": f0})
         rep = d.call({"op": "query", "q": c["query"], "describe": c["describe"]})
     print(json.dumps({"query": c["query"], "now": {"items": rep.get("items"), "descs": [(x["phrase"], x["description"]) for x in rep.get("descs", [])], "events": rep.get("events")}}, ensure_ascii=False))
     return 0
